@@ -112,6 +112,7 @@ pub fn run(ctx: &Ctx) {
         blocks.push(Block::new(crate::props::c05::u_rep_single(&["a", "b"], 8), grid(&[R | W, R | X, R | I, R | E], 4), "{r+w, r+x, r+i, r+e} x 4x4 thresholds"));
         blocks.push(Block::new(crate::props::c05::u_rep_single(&["a", "b", "c"], 6), grid(&[R], 3), "r x 3x3 thresholds"));
         blocks.push(Block::new(Universe::new("U_pairs{a,b}^<=4", &["a", "b"], 4, 2, false), grid(&[R], 3), "r x 3x3 thresholds"));
+        blocks.push(Block::new(u_unit_counts(), grid(&[R, R | D, R | I], 3), "{r, r+d, r+i} x 3x3 thresholds"));
         blocks.push(Block::new(crate::props::c05::u_rep_single(&["a", "b"], 9), vec![Cfg::new(0), Cfg::new(W), Cfg::new(X), Cfg::with(0, 3, 3)], "no r: {}, w, x, thresholds (3,3)"));
         blocks.push(Block::new(Universe::new("U_adv(units)", &["a\u{1f3fb}", "\u{1f4a9}", "a", "{", "1"], 5, 1, false), grid(&[R, R | E, R | D], 3), "{r, r+e, r+d} x 3x3"));
     } else {
@@ -119,6 +120,7 @@ pub fn run(ctx: &Ctx) {
         blocks.push(Block::new(crate::props::c05::u_rep_single(&["a", "b"], 12), grid(&with_r, 6), "5 bases x 6x6 thresholds"));
         blocks.push(Block::new(crate::props::c05::u_rep_single(&["a", "b", "c"], 7), grid(&with_r, 4), "5 bases x 4x4 thresholds"));
         blocks.push(Block::new(Universe::new("U_pairs{a,b}^<=5", &["a", "b"], 5, 2, false), grid(&[R], 4), "r x 4x4 thresholds"));
+        blocks.push(Block::new(u_unit_counts(), grid(&[R, R | D, R | I, R | X], 4), "4 bases x 4x4 thresholds"));
         blocks.push(Block::new(Universe::new("U_triples{a,b}^<=3", &["a", "b"], 3, 3, false), grid(&[R, R | X], 3), "{r, r+x} x 3x3"));
         blocks.push(Block::new(crate::props::c05::u_rep_single(&["a", "b"], 12), vec![Cfg::new(0), Cfg::new(W), Cfg::new(X), Cfg::with(0, 3, 3), Cfg::new(E)], "no r"));
         blocks.push(Block::new(Universe::new("U_adv(units)", &["a\u{1f3fb}", "\u{1f4a9}", "a", "{", "1"], 6, 1, false), grid(&[R, R | E, R | D, R | X], 4), "4 bases x 4x4"));
